@@ -188,6 +188,9 @@ type JenID struct {
 	// selectors can be applied to it as it is, the value as a whole has to be
 	// dereferenced first.
 	ImplicitDeref bool
+	// Owned is set for a by-value parameter of the generated method: the
+	// method holds its own copy, its address does not point into the source.
+	Owned bool
 }
 
 func (j *JenID) Pointer(t *Type, namer func(string) string) ([]jen.Code, *JenID) {
